@@ -110,6 +110,29 @@ K_HARNESSES = {
         functions=["src/config/context.rs::Context::cache_next_reference_id"],
         stubs=5, assumptions=["std::path::Path::join, serde_yaml::to_string and std::fs::{write, remove_file, rename} stubbed (lock model records the value)"],
         bound="use_cache on/off, any u32 id"),
+    "u_find": dict(
+        module="verif_finder",
+        functions=["src/codegen/finder.rs::CodeFinder::find (real code, with std's Path::extension, OsStr/str conversions and Vec<String>::contains compiled from source)"],
+        stubs=4, assumptions=["walkdir replaced by /verif/kani/shims/walkdir: the walk yields the root and then arbitrary entries (name, kind: file/directory/"
+                              "link to file/link to directory/unreadable/other, depth 1 or 2); a link is reported as a link unless follow_links(true) was asked for, "
+                              "min_depth/max_depth filter by depth; any other walkdir API makes the build fail (inconclusive)",
+                              "std::fs::metadata and Metadata::is_dir stubbed (arbitrary outcome); core::str::from_utf8 stubbed (names are ASCII in the model)",
+                              LOG_NOTE],
+        bound="NFILES entries below the root `/s`, names of exactly NNAME characters from {r s R S a . ~}, optionally inside a one-character directory, "
+              "NEXT configured extensions of exactly EXTLEN characters from the same set; non-ASCII and longer names outside"),
+    "u_ctx_new": dict(
+        module="verif_context",
+        functions=["src/config/context.rs::Context::new (real code incl. Path::join, str::starts_with, PathBuf::to_str)",
+                   "src/config/context.rs::Context::read_cached_next_reference_id (real Path::join)"],
+        stubs=6, assumptions=["serde_yaml::from_str stubbed: the configuration parses and yields an arbitrary source_dir/use_cache (the error branch formats a "
+                              "serde error, which CBMC cannot execute); Path::exists and fs::read_to_string stubbed, they check the path they are given; "
+                              "core::str::from_utf8 stubbed (ASCII paths); std::alloc::{dealloc, realloc} replaced by never-freeing versions"],
+        bound="configuration directory of exactly DIRLEN (0..2) characters from {c / .}, source_dir of exactly SRCLEN (1..2) characters from {s / .}; longer paths outside"),
+    "u_ctx_write_path": dict(
+        module="verif_context",
+        functions=["src/config/context.rs::Context::cache_next_reference_id (real Path::join)"],
+        stubs=4, assumptions=["serde_yaml::to_string and std::fs::write stubbed (write checks the path it is given)"],
+        bound="configuration directory of exactly DIRLEN (0..2) characters from {c / .}, any u32 id"),
     "d_generate": dict(
         functions=[GEN + "::generate_code", "src/codegen/finder.rs::CodeFinder::new"],
         stubs=3, assumptions=[DESUGAR, PR_STUB, FINDER_STUB, LOCK_STUB, LOG_NOTE,
@@ -145,6 +168,17 @@ def K(harness, deep=False, timeout=900, mem_gb=20):
     return {"engine": "K", "name": harness, "harness": harness, "bounds": QUICK_BOUNDS, "timeout": timeout, "mem_gb": mem_gb}
 
 
+def KB(harness, tag, bounds, timeout=1500, mem_gb=24):
+    """a harness at explicitly given bounds"""
+    return {"engine": "K", "name": "%s@%s" % (harness, tag), "harness": harness, "bounds": dict(QUICK_BOUNDS, **bounds),
+            "timeout": timeout, "mem_gb": mem_gb}
+
+
+def FIND(nfiles, nname, next_, extlen, timeout=1800):
+    return KB("u_find", "%dx%d-%dx%d" % (nfiles, nname, next_, extlen),
+              {"NFILES": nfiles, "NNAME": nname, "NEXT": next_, "EXTLEN": extlen}, timeout, 28)
+
+
 def S(name, fn, **kw):
     return {"engine": "S", "name": name, "fn": fn, "kw": kw}
 
@@ -163,6 +197,9 @@ def obligations(prop, tier):
         "C06": [K("d_generate"), K("u_count"), K("u_nextid"), K("u_insert")],
         "C07": [K("u_insert"), K("u_insert_unordered")],
         "C08": [K("u_insert"), K("u_insert_reduce"), K("d_generate")],
+        "C15": [K("d_generate"), FIND(1, 4, 2, 2), FIND(1, 3, 1, 2), KB("u_ctx_new", "dir2-src1", {"DIRLEN": 2, "SRCLEN": 1}),
+                KB("u_ctx_new", "dir1-src2", {"DIRLEN": 1, "SRCLEN": 2}), KB("u_ctx_write_path", "dir2", {"DIRLEN": 2}),
+                KB("u_ctx_write_path", "dir0", {"DIRLEN": 0})],
         "C16": [K("d_generate"), K("d_check"), K("u_ctx_read"), K("u_ctx_write")],
         "C17": [K("u_nextid"), K("u_count"), K("u_insert"), K("u_insert_reduce"), K("d_generate"), K("d_check"), K("u_pr"), K("u_load")],
         "C18": [K("d_generate"), K("d_check"), K("u_pr"), K("u_ctx_write")],
@@ -183,6 +220,9 @@ def obligations(prop, tier):
             "C13": [K("u_insert", True, 2400, 28)],
             "C12": [KD("u_extract", 9, 3000, 28), KD("u_extract", 10, 3000, 28), KD("u_extract", 11, 3000, 28)],
             "C17": [K("u_insert", True, 2400, 28)],
+            "C15": [FIND(2, 4, 1, 2, 3600), FIND(1, 5, 1, 2), FIND(1, 4, 1, 1), FIND(1, 2, 1, 1),
+                    KB("u_ctx_new", "dir2-src2", {"DIRLEN": 2, "SRCLEN": 2}), KB("u_ctx_new", "dir0-src1", {"DIRLEN": 0, "SRCLEN": 1}),
+                    KB("u_ctx_write_path", "dir1", {"DIRLEN": 1})],
         }
         for o in extra.get(prop, []):
             obs += o if isinstance(o, list) else [o]
